@@ -124,7 +124,12 @@ pub fn run_seq_once(fam: &Fam, cfg: &SCfg, tape: bool) -> RunOut {
     fn go<D: DecisionDiagram<State = i64> + Default, C: Cache<State = i64> + Default>(fam: &Fam, cfg: &SCfg, w: &(dyn WidthHeuristic<i64> + Send + Sync), dom: &dyn DominanceChecker<State = i64>, cutoff: &CountCutoff, fringe: &mut CapFringe) -> RunOut {
         let res = catch(|| {
             let mut s = SequentialSolver::<i64, TapeDD<D>, TapeCache<C>>::custom(fam, fam, fam, w, dom, cutoff, fringe);
-            if let Some((v, p)) = &cfg.primal { s.set_primal(*v, p.iter().map(|(a, b)| Decision { variable: Variable(*a), value: *b }).collect()); }
+            if let Some((v, p)) = &cfg.primal {
+                s.set_primal(*v, p.iter().map(|(a, b)| Decision { variable: Variable(*a), value: *b }).collect());
+                // an equal and a smaller primal afterwards must not replace the incumbent (marker solutions)
+                s.set_primal(*v, vec![Decision { variable: Variable(0), value: 77 }]);
+                s.set_primal(*v - 1, vec![Decision { variable: Variable(0), value: 78 }]);
+            }
             let c = s.maximize();
             (c.is_exact, c.best_value, s.best_value(), s.best_lower_bound(), s.best_upper_bound(), s.explored(), s.best_solution(), eng_small::f32_tokens(s.gap()))
         });
